@@ -364,6 +364,8 @@ theorem parseQuantity_ind (q : List Tok) (h : quantCore q = true) (s : BP α) :
     rfl
   · rw [parseQuantity_run]
     exact (hp.all s).toks
+  · rw [parseQuantity_run]
+    exact ((hi _).cs).trans (hp.all s).cs
 
 theorem parseQuantity_indA (q : List Tok) (h : quantCore q = true) : IndA (parseQuantity (α := α) q) :=
   ⟨parseQuantity_ind q h⟩
